@@ -86,7 +86,8 @@ WideCases == \A k \in {9, 10, 11, 12, 20} : LET P == WidePats(k) IN
 \* deep failure chains: each pattern of this pool is a suffix of the next, so that a state's nearest pattern end can lie
 \* two, three or four failure links away (and states in between are no pattern ends when their pattern is left out)
 DeepPool == << Rb, Ra \o Rb, Rb \o Ra \o Rb, Ra \o Rb \o Ra \o Rb, Ra, Rb \o Ra, Ra \o Rb \o Ra, Rb \o Ra \o Rb \o Ra, Rz \o Ra \o Rb \o Ra >>
-DeepSets == {S \in SUBSET (1..Len(DeepPool)) : Cardinality(S) \in {3, 4}}
+\* (sets of five and six: three nested pattern ends below one node AND two longer patterns that both fall back to it)
+DeepSets == {S \in SUBSET (1..Len(DeepPool)) : Cardinality(S) \in {3, 4, 5, 6}}
 DeepCases == \A S \in DeepSets : LET P == [j \in 1..Cardinality(S) |-> DeepPool[AsSeq(S)[j]]] IN
     \A t \in {Flat(rs) : rs \in SeqsUpTo({Ra, Rb, Rz}, MaxText)} :
         LET oc == Occ(P, t) IN
@@ -94,7 +95,25 @@ DeepCases == \A S \in DeepSets : LET P == [j \in 1..Cardinality(S) |-> DeepPool[
             Emit([fn |-> "text", s |-> t, a |-> P, x |-> Schedules(Len(P)),
                   out |-> [match |-> TRUE, occ |-> AsSeq({o[1] * 100 + o[2] : o \in oc}),
                            runs |-> AsSeq({r[1] * 10000 + r[2] * 100 + r[3] : r \in Runs(P, t)})]])
+\* very wide nodes: k children of the root whose runes are spread over all seventeen planes (U+0021 .. U+10FFFF, the
+\* surrogate range skipped) - children are found by searching a sorted list, whatever its length and the spread of its keys
+Utf8(c) == IF c < 128 THEN <<c>>
+           ELSE IF c < 2048 THEN <<192 + (c \div 64), 128 + (c % 64)>>
+           ELSE IF c < 65536 THEN <<224 + (c \div 4096), 128 + ((c \div 64) % 64), 128 + (c % 64)>>
+           ELSE <<240 + (c \div 262144), 128 + ((c \div 4096) % 64), 128 + ((c \div 64) % 64), 128 + (c % 64)>>
+Spread(k, i) == LET c == 33 + (i - 1) * ((1114111 - 33) \div (k - 1)) IN IF c >= 55296 /\ c <= 57343 THEN c + 2048 ELSE c
+SpreadPats(k) == [i \in 1..k |-> Utf8(Spread(k, i))] \o << Utf8(Spread(k, k)) \o Utf8(Spread(k, 1)), Utf8(Spread(k, k)) \o Utf8(Spread(k, k)) >>
+SpreadAt(k) == {1, 2, k \div 2, (3 * k) \div 4, k - 1, k}
+SpreadCases == \A k \in {65, 300, 3000} : LET P == SpreadPats(k) IN
+    /\ \A i \in SpreadAt(k) : \A t \in {P[i] \o <<45>> \o P[k + 1 - i], <<45>> \o P[k] \o P[i] \o <<126>>} :
+        LET oc == Occ(P, t) IN
+        Emit([fn |-> "text", s |-> t, a |-> P, x |-> << <<Fwd(Len(P))>> >>,
+              out |-> [match |-> oc # {}, occ |-> AsSeq({o[1] * 100 + o[2] : o \in oc}),
+                       runs |-> AsSeq({r[1] * 10000 + r[2] * 100 + r[3] : r \in Runs(P, t)})]])
+    /\ \A i \in SpreadAt(k) : \A key \in {P[i], P[i] \o <<45>>} :
+        Emit([fn |-> "key", s |-> key, a |-> P, x |-> << <<Fwd(Len(P))>> >>, out |-> AsSeq({j \in 1..Len(P) : IsPrefix(key, P[j])})])
 ASSUME TextCases
+ASSUME Mode = "valid" => SpreadCases
 ASSUME Mode = "valid" => DeepCases
 ASSUME Mode = "valid" => WideCases
 ASSUME Mode = "valid" => KeyCases
